@@ -10,3 +10,5 @@ func verifEv(kind string, args ...any) {}
 func verifFS(op, path string) {}
 
 func verifPoison(buf []byte) {}
+
+func verifScanBufferTaken(buf []byte) {}
